@@ -19,7 +19,7 @@ func init() {
 	register(&Rule{ID: "C07.ARGS", Min: 8, Doc: "line and column arguments are passed in the order of the callee's parameters", Run: runC07Args})
 	register(&Rule{ID: "C07.TOKEN", Min: 12, Doc: "a node is reported at its own token or at the token of its leftmost operand", Run: runC07Token})
 	register(&Rule{ID: "C07.ERRTOK", Min: 8, Doc: "a syntax error is positioned at the look-ahead token at which parsing stopped", Run: runC07ErrTok})
-	register(&Rule{ID: "C07.LEXPOS", Min: 4, Doc: "a token starts where the previous token or white space ended", Run: runC07LexPos})
+	register(&Rule{ID: "C07.LEXPOS", Min: 6, Doc: "a token starts where the previous token or white space ended", Run: runC07LexPos})
 	register(&Rule{ID: "C07.ORIGIN", Min: 3, Doc: "every position object is built from a YAML node's line/column or from position arithmetic", Run: runC07Origin})
 }
 
@@ -1035,43 +1035,225 @@ func runC07ErrTok(c *Ctx) {
 
 // ---- C07.LEXPOS ----
 
-func runC07LexPos(c *Ctx) {
-	p := c.P
-	var isScanPos func(v ssa.Value) bool
-	isScanPos = func(v ssa.Value) bool {
-		if ld, ok := v.(*ssa.UnOp); ok && ld.Op == token.MUL {
-			if al, ok := ld.X.(*ssa.Alloc); ok {
-				n, all := 0, true
-				for _, ref := range *al.Referrers() {
-					if st, ok := ref.(*ssa.Store); ok && st.Addr == ssa.Value(al) {
-						n++
-						if !isScanPos(st.Val) {
-							all = false
-						}
-					}
+// wholeValueLocal: the local al is only ever written as a whole and its address is not handed out: every use is a store of
+// a whole value into it, a load of the whole value, or a load of one of its fields. The whole-value stores are returned. A
+// local of which a single field is bumped afterwards (p.Column++) or whose address reaches a call is not of this form.
+func wholeValueLocal(al *ssa.Alloc) ([]*ssa.Store, bool) {
+	var stores []*ssa.Store
+	for _, ref := range *al.Referrers() {
+		switch r := ref.(type) {
+		case *ssa.DebugRef:
+		case *ssa.Store:
+			if r.Addr != ssa.Value(al) {
+				return nil, false // the address is stored somewhere
+			}
+			stores = append(stores, r)
+		case *ssa.UnOp:
+			if r.Op != token.MUL {
+				return nil, false
+			}
+		case *ssa.FieldAddr:
+			for _, r2 := range *r.Referrers() {
+				if _, dbg := r2.(*ssa.DebugRef); dbg {
+					continue
 				}
-				return n > 0 && all
+				if ld, ok := r2.(*ssa.UnOp); !ok || ld.Op != token.MUL {
+					return nil, false
+				}
+			}
+		default:
+			return nil, false
+		}
+	}
+	return stores, true
+}
+
+// onWayBetween: some instruction satisfying pred can execute after a and before b, on a path that does not pass a again.
+func onWayBetween(a, b ssa.Instruction, pred func(ssa.Instruction) bool) bool {
+	type at struct {
+		b *ssa.BasicBlock
+		i int
+	}
+	seen := map[*ssa.BasicBlock]bool{}
+	work := []at{{a.Block(), instrIndex(a) + 1}}
+	for len(work) > 0 {
+		w := work[len(work)-1]
+		work = work[:len(work)-1]
+		stopped := false
+		for _, in := range w.b.Instrs[w.i:] {
+			if in == b || in == a {
+				stopped = true
+				break
+			}
+			if pred(in) {
+				// only counts when b is still ahead
+				if instrReachableAfter(in, b) {
+					return true
+				}
 			}
 		}
+		if stopped {
+			continue
+		}
+		for _, s := range w.b.Succs {
+			if !seen[s] {
+				seen[s] = true
+				work = append(work, at{s, 0})
+			}
+		}
+	}
+	return false
+}
+
+// lexStartUse: how one function uses the field ExprLexer.start.
+type lexStartUse struct {
+	whole   []*ssa.Store      // lex.start = v
+	partial []ssa.Instruction // lex.start.Column++ and the like, or the address of the start (or of one of its fields) handed out
+	initial map[string]int64  // fields of the start of a lexer that is being built, set to constants (ExprLexer{start: Position{...}})
+	initPos token.Pos
+}
+
+func lexStartUses(fn *ssa.Function) lexStartUse {
+	var u lexStartUse
+	eachInstr(fn, func(_ *ssa.BasicBlock, _ int, in ssa.Instruction) {
+		fa, ok := in.(*ssa.FieldAddr)
+		if !ok || fieldAddrName(fa) != "ExprLexer.start" {
+			return
+		}
+		for _, ref := range *fa.Referrers() {
+			switch r := ref.(type) {
+			case *ssa.DebugRef:
+			case *ssa.Store:
+				if r.Addr == ssa.Value(fa) {
+					u.whole = append(u.whole, r)
+				} else {
+					u.partial = append(u.partial, r)
+				}
+			case *ssa.UnOp:
+				if r.Op != token.MUL {
+					u.partial = append(u.partial, r)
+				}
+			case *ssa.FieldAddr:
+				for _, r2 := range *r.Referrers() {
+					if _, dbg := r2.(*ssa.DebugRef); dbg {
+						continue
+					}
+					if ld, ok := r2.(*ssa.UnOp); ok && ld.Op == token.MUL {
+						continue
+					}
+					if st, ok := r2.(*ssa.Store); ok && st.Addr == ssa.Value(r) {
+						if _, fresh := fa.X.(*ssa.Alloc); fresh {
+							if k, isConst := constInt(st.Val); isConst {
+								if _, twice := u.initial[fieldAddrName(r)]; !twice {
+									if u.initial == nil {
+										u.initial = map[string]int64{}
+									}
+									u.initial[fieldAddrName(r)] = k
+									u.initPos = st.Pos()
+									continue
+								}
+							}
+						}
+					}
+					u.partial = append(u.partial, r2)
+				}
+			default:
+				u.partial = append(u.partial, ref)
+			}
+		}
+	})
+	return u
+}
+
+func runC07LexPos(c *Ctx) {
+	p := c.P
+	// advances: the instruction may move the scanner (any call that is given the lexer or its scanner, except Pos and Peek)
+	advances := func(in ssa.Instruction) bool {
+		call, ok := in.(ssa.CallInstruction)
+		if !ok {
+			return false
+		}
+		switch calleeFullName(call.Common()) {
+		case "(*text/scanner.Scanner).Pos", "(*text/scanner.Scanner).Peek":
+			return false
+		}
+		for _, a := range call.Common().Args {
+			if fa, ok := a.(*ssa.FieldAddr); ok && fieldAddrName(fa) == "ExprLexer.scan" {
+				return true
+			}
+			if pr, ok := a.(*ssa.Parameter); ok && strings.HasSuffix(typeStr(pr.Type()), "ExprLexer") {
+				return true
+			}
+		}
+		return false
+	}
+	// scanPosAt: v, stored by at, is the position the scanner has at that moment: the result of Scanner.Pos, directly or
+	// through a local that holds nothing else and is not changed field by field, with no scanner movement in between.
+	var scanPosAt func(v ssa.Value, at ssa.Instruction, depth int) bool
+	scanPosAt = func(v ssa.Value, at ssa.Instruction, depth int) bool {
+		if depth > 4 {
+			return false
+		}
+		if ld, ok := v.(*ssa.UnOp); ok && ld.Op == token.MUL {
+			al, ok := ld.X.(*ssa.Alloc)
+			if !ok {
+				return false
+			}
+			stores, ok := wholeValueLocal(al)
+			if !ok || len(stores) == 0 {
+				return false
+			}
+			for _, st := range stores {
+				if !scanPosAt(st.Val, at, depth+1) {
+					return false
+				}
+			}
+			return true
+		}
 		call, ok := v.(*ssa.Call)
-		return ok && calleeFullName(&call.Call) == "(*text/scanner.Scanner).Pos"
+		if !ok || calleeFullName(&call.Call) != "(*text/scanner.Scanner).Pos" {
+			return false
+		}
+		return !onWayBetween(call, at, advances)
 	}
 	// writers of lex.start
 	writers := map[string]bool{}
+	uses := map[*ssa.Function]lexStartUse{}
+	firstSet := false
 	for _, fn := range p.Funcs {
-		eachInstr(fn, func(_ *ssa.BasicBlock, _ int, in ssa.Instruction) {
-			if st, ok := in.(*ssa.Store); ok {
-				if fa, ok := st.Addr.(*ssa.FieldAddr); ok && fieldAddrName(fa) == "ExprLexer.start" {
-					writers[FuncName(fn)] = true
-					construct := FuncName(fn) + "|start of the next token"
-					if isScanPos(st.Val) {
-						c.ok(construct, st.Pos(), "set to the scanner's position")
-					} else {
-						c.bad(construct, st.Pos(), "the start of the next token is not the scanner's current position")
-					}
-				}
+		u := lexStartUses(fn)
+		uses[fn] = u
+		construct := FuncName(fn) + "|start of the next token"
+		for _, st := range u.whole {
+			writers[FuncName(fn)] = true
+			if scanPosAt(st.Val, st, 0) {
+				c.ok(construct, st.Pos(), "set to the scanner's position")
+			} else {
+				c.bad(construct, st.Pos(), "the start of the next token is not the scanner's current position")
 			}
-		})
+		}
+		for _, st := range u.whole {
+			if _, fresh := st.Addr.(*ssa.FieldAddr).X.(*ssa.Alloc); fresh {
+				firstSet = true
+			}
+		}
+		if u.initial != nil {
+			firstSet = true
+			writers[FuncName(fn)] = true
+			// the scanner of a new lexer is at offset 0, line 1, column 1 (text/scanner.Scanner.Init)
+			if len(u.initial) == 3 && u.initial["scanner.Position.Offset"] == 0 && u.initial["scanner.Position.Line"] == 1 && u.initial["scanner.Position.Column"] == 1 {
+				c.ok(FuncName(fn)+"|start of the first token", u.initPos, "offset 0, line 1, column 1: where a fresh scanner is")
+			} else {
+				c.bad(FuncName(fn)+"|start of the first token", u.initPos, fmt.Sprintf("a new lexer does not start at offset 0, line 1, column 1 (%v)", u.initial))
+			}
+		}
+		for _, in := range u.partial {
+			writers[FuncName(fn)] = true
+			c.bad(construct, in.Pos(), "one field of the recorded start is changed on its own (or its address is handed out): the start of the next token is no longer a position the scanner was at")
+		}
+	}
+	if !firstSet {
+		c.bad("ExprLexer.start|start of the first token", token.NoPos, "no function that builds a lexer sets the start: the first token is at line 0, column 0")
 	}
 	// skipWhite: after each consumed white space the start is moved
 	if sw := p.Method("ExprLexer", "skipWhite"); sw == nil {
@@ -1087,7 +1269,7 @@ func runC07LexPos(c *Ctx) {
 			followed := false
 			for _, in2 := range b.Instrs[i+1:] {
 				if st, ok := in2.(*ssa.Store); ok {
-					if fa, ok := st.Addr.(*ssa.FieldAddr); ok && fieldAddrName(fa) == "ExprLexer.start" && isScanPos(st.Val) {
+					if fa, ok := st.Addr.(*ssa.FieldAddr); ok && fieldAddrName(fa) == "ExprLexer.start" && scanPosAt(st.Val, st, 0) {
 						followed = true
 					}
 				}
@@ -1102,11 +1284,63 @@ func runC07LexPos(c *Ctx) {
 			c.bad("(*ExprLexer).skipWhite|start after white space", sw.Pos(), "white space before a token is counted as part of it: its column is too small")
 		}
 	}
-	// token(): the token's position is the old start, then start := current position
+	// token(): the token's position is the start as recorded when token() is entered; only then start := current position
 	if tf := p.Method("ExprLexer", "token"); tf == nil {
 		c.anchorMissing("(*ExprLexer).token")
 	} else {
-		okOld := 0
+		u := uses[tf]
+		// recordedStart: the address holds the start of this token: lex.start itself, or a local copy of it, read before
+		// anything in this function writes the start
+		beforeWrites := func(ld ssa.Instruction) bool {
+			for _, w := range u.whole {
+				if instrReachableAfter(w, ld) {
+					return false
+				}
+			}
+			for _, w := range u.partial {
+				if instrReachableAfter(w, ld) {
+					return false
+				}
+			}
+			return true
+		}
+		isStartAddr := func(v ssa.Value) bool {
+			fa, ok := v.(*ssa.FieldAddr)
+			if !ok || fieldAddrName(fa) != "ExprLexer.start" {
+				return false
+			}
+			_, recv := fa.X.(*ssa.Parameter)
+			return recv
+		}
+		recordedStart := func(addr ssa.Value, ld ssa.Instruction) string {
+			if isStartAddr(addr) {
+				if !beforeWrites(ld) {
+					return "read after the start was moved to the end of the token"
+				}
+				return ""
+			}
+			al, ok := addr.(*ssa.Alloc)
+			if !ok {
+				return "not the recorded start of the token"
+			}
+			stores, ok := wholeValueLocal(al)
+			if !ok || len(stores) == 0 {
+				return "taken from a local position that is changed field by field"
+			}
+			for _, st := range stores {
+				cp, ok := st.Val.(*ssa.UnOp)
+				if !ok || cp.Op != token.MUL || !isStartAddr(cp.X) {
+					return "taken from " + symName(st.Val) + ", which is not the recorded start of the token"
+				}
+				if !beforeWrites(cp) {
+					return "the copy of the start is taken after the start was moved to the end of the token"
+				}
+			}
+			return ""
+		}
+		want := map[string]string{"Token.Line": "scanner.Position.Line", "Token.Column": "scanner.Position.Column", "Token.Offset": "scanner.Position.Offset"}
+		seen := map[string]int{}
+		why := ""
 		eachInstr(tf, func(_ *ssa.BasicBlock, _ int, in ssa.Instruction) {
 			st, ok := in.(*ssa.Store)
 			if !ok {
@@ -1116,18 +1350,35 @@ func runC07LexPos(c *Ctx) {
 			if !ok {
 				return
 			}
-			switch fieldAddrName(fa) {
-			case "Token.Line", "Token.Column", "Token.Offset":
-				// value is a field of a copy of lex.start taken before the store to lex.start
-				if strings.Contains(symName(st.Val), "Position.") {
-					okOld++
-				}
+			tokField := fieldAddrName(fa)
+			posField, ok := want[tokField]
+			if !ok {
+				return
+			}
+			seen[tokField]++
+			ld, ok := st.Val.(*ssa.UnOp)
+			if !ok || ld.Op != token.MUL {
+				why = tokField + " is " + symName(st.Val) + ", not a field of the recorded start"
+				return
+			}
+			src, ok := ld.X.(*ssa.FieldAddr)
+			if !ok || fieldAddrName(src) != posField {
+				why = tokField + " is " + symName(st.Val) + ", not " + posField + " of the recorded start"
+				return
+			}
+			if w := recordedStart(src.X, ld); w != "" {
+				why = tokField + ": " + w
 			}
 		})
-		if okOld == 3 {
-			c.ok("(*ExprLexer).token|position of the token", tf.Pos(), "Offset/Line/Column of the recorded start")
+		for _, f := range sortedKeys(want) {
+			if seen[f] != 1 && why == "" {
+				why = fmt.Sprintf("%s is set %d times", f, seen[f])
+			}
+		}
+		if why == "" {
+			c.ok("(*ExprLexer).token|position of the token", tf.Pos(), "Offset/Line/Column of the start recorded before it is moved")
 		} else {
-			c.bad("(*ExprLexer).token|position of the token", tf.Pos(), "the token's position is not the recorded start position")
+			c.bad("(*ExprLexer).token|position of the token", tf.Pos(), "the token's position is not the recorded start position: "+why)
 		}
 	}
 	ws := sortedKeys(writers)
@@ -1147,6 +1398,57 @@ func runC07LexPos(c *Ctx) {
 
 // ---- C07.ORIGIN ----
 
+// posLeaves: the values a position component is computed from, through +, - and conversions.
+func posLeaves(v ssa.Value, depth int, out *[]ssa.Value) {
+	if depth < 12 {
+		switch x := v.(type) {
+		case *ssa.BinOp:
+			if x.Op == token.ADD || x.Op == token.SUB {
+				posLeaves(x.X, depth+1, out)
+				posLeaves(x.Y, depth+1, out)
+				return
+			}
+		case *ssa.Convert:
+			posLeaves(x.X, depth+1, out)
+			return
+		case *ssa.ChangeType:
+			posLeaves(x.X, depth+1, out)
+			return
+		}
+	}
+	*out = append(*out, v)
+}
+
+// posComponentSource: v is a line (col=false) or column (col=true) of the workflow source: that component of another
+// position object or of a YAML node, or an integer parameter (what callers pass for it is the business of C07.ARGS). A
+// column inside a pattern or inside an expression (InvalidGlobPattern.Column, Token.Column) is an offset, not a source.
+func posComponentSource(v ssa.Value, col bool, self *ssa.Alloc) bool {
+	if pr, ok := v.(*ssa.Parameter); ok {
+		b, ok := pr.Type().Underlying().(*types.Basic)
+		return ok && b.Info()&types.IsInteger != 0
+	}
+	f, base := fieldLoad(v)
+	if f == "" || base == ssa.Value(self) {
+		return false
+	}
+	if col {
+		return f == "Pos.Col" || f == "yaml.Node.Column"
+	}
+	return f == "Pos.Line" || f == "yaml.Node.Line"
+}
+
+// wholePosSource: v (stored into self as a whole) is another position: *q for a position pointer q that is not self, the
+// Pos result of a call, or a Pos kept in a field.
+func wholePosSource(v ssa.Value, self *ssa.Alloc) bool {
+	switch x := v.(type) {
+	case *ssa.UnOp:
+		return x.Op == token.MUL && x.X != ssa.Value(self)
+	case *ssa.Call, *ssa.Field, *ssa.Extract, *ssa.Phi, *ssa.Parameter:
+		return true
+	}
+	return false
+}
+
 func runC07Origin(c *Ctx) {
 	p := c.P
 	occ := map[string]int{}
@@ -1159,50 +1461,146 @@ func runC07Origin(c *Ctx) {
 			k := FuncName(fn) + "|Pos object"
 			occ[k]++
 			construct := fmt.Sprintf("%s#%d", k, occ[k])
-			// how is it filled: whole-struct copy, or per-field stores
-			var lineF, colF linForm
+			// A component is established by a store that takes it from the source (the whole object copied from another
+			// position, or the field set from a source line/column without reading the object itself). Every other use
+			// of the component - a read, an adjustment such as p.Col++, the object handed to a call - has to come after
+			// an establishing store on every path from the creation of the object: else it sees (or adjusts) the zero
+			// value the object was created with.
+			type compState struct {
+				est   map[ssa.Instruction]bool
+				uses  []ssa.Instruction
+				form  string
+				wrote bool
+			}
+			comps := map[bool]*compState{false: {est: map[ssa.Instruction]bool{}}, true: {est: map[ssa.Instruction]bool{}}}
 			copyOf := ""
 			for _, ref := range *al.Referrers() {
 				switch r := ref.(type) {
+				case *ssa.DebugRef:
 				case *ssa.Store:
 					if r.Addr == ssa.Value(al) {
-						copyOf = symName(r.Val)
+						for _, cs := range comps {
+							cs.wrote = true
+							if wholePosSource(r.Val, al) {
+								cs.est[r] = true
+							} else {
+								cs.uses = append(cs.uses, r)
+							}
+						}
+						if wholePosSource(r.Val, al) && copyOf == "" {
+							copyOf = symName(r.Val)
+							if ld, isLoad := r.Val.(*ssa.UnOp); isLoad {
+								copyOf = "*" + symName(ld.X)
+							}
+						}
+						continue
+					}
+					for _, cs := range comps {
+						cs.uses = append(cs.uses, r) // the address is stored somewhere
 					}
 				case *ssa.FieldAddr:
+					name := fieldAddrName(r)
+					if name != "Pos.Line" && name != "Pos.Col" {
+						continue
+					}
+					cs := comps[name == "Pos.Col"]
 					for _, r2 := range *r.Referrers() {
-						if st, ok := r2.(*ssa.Store); ok && st.Addr == ssa.Value(r) {
-							switch fieldAddrName(r) {
-							case "Pos.Line":
-								if lineF == nil {
-									lineF = linOf(st.Val, 0)
-								}
-							case "Pos.Col":
-								if colF == nil {
-									colF = linOf(st.Val, 0)
-								}
+						if _, dbg := r2.(*ssa.DebugRef); dbg {
+							continue
+						}
+						st, isStore := r2.(*ssa.Store)
+						if !isStore || st.Addr != ssa.Value(r) {
+							cs.uses = append(cs.uses, r2)
+							continue
+						}
+						cs.wrote = true
+						var leaves []ssa.Value
+						posLeaves(st.Val, 0, &leaves)
+						sourced, clean := false, true
+						for _, l := range leaves {
+							if _, isConst := l.(*ssa.Const); isConst {
+								continue
 							}
+							if posComponentSource(l, name == "Pos.Col", al) {
+								sourced = true
+							} else if _, base := fieldLoad(l); base == ssa.Value(al) {
+								clean = false // reads the object itself
+							}
+						}
+						if sourced && clean {
+							cs.est[st] = true
+							if cs.form == "" {
+								cs.form = linOf(st.Val, 0).String()
+							}
+						} else {
+							cs.uses = append(cs.uses, st)
+						}
+					}
+				default:
+					for _, cs := range comps {
+						cs.uses = append(cs.uses, ref)
+					}
+				}
+			}
+			// unestablished: a use of the component that can be reached from the creation of the object without passing
+			// an establishing store
+			unestablished := func(cs *compState) ssa.Instruction {
+				isUse := map[ssa.Instruction]bool{}
+				for _, u := range cs.uses {
+					isUse[u] = true
+				}
+				type at struct {
+					b *ssa.BasicBlock
+					i int
+				}
+				seen := map[*ssa.BasicBlock]bool{}
+				work := []at{{al.Block(), instrIndex(al) + 1}}
+				for len(work) > 0 {
+					w := work[len(work)-1]
+					work = work[:len(work)-1]
+					stopped := false
+					for _, in := range w.b.Instrs[w.i:] {
+						if cs.est[in] || in == ssa.Instruction(al) {
+							stopped = true
+							break
+						}
+						if isUse[in] {
+							return in
+						}
+					}
+					if stopped {
+						continue
+					}
+					for _, s := range w.b.Succs {
+						if !seen[s] {
+							seen[s] = true
+							work = append(work, at{s, 0})
 						}
 					}
 				}
+				return nil
 			}
-			hasSym := func(l linForm) bool {
-				for k, v := range l {
-					if k != "1" && v != 0 {
-						return true
-					}
-				}
-				return false
+			lineU, colU := unestablished(comps[false]), unestablished(comps[true])
+			describe := func(u ssa.Instruction) string {
+				return fmt.Sprintf("used in line %d on a path where it was not yet taken from a source position", p.Fset.Position(u.Pos()).Line)
 			}
 			switch {
-			case copyOf != "":
-				c.ok(construct, al.Pos(), "copy of "+copyOf)
-			case lineF != nil && colF != nil && hasSym(lineF) && hasSym(colF):
-				c.ok(construct, al.Pos(), "Line = "+lineF.String()+"; Col = "+colF.String())
-			case lineF == nil && colF == nil:
+			case !comps[false].wrote && !comps[true].wrote:
 				// zero value used as a variable (filled elsewhere) - look for it being returned/used as is
 				c.bad(construct, al.Pos(), "a zero position object is created: diagnostics at it have line 0, column 0")
+			case lineU != nil && colU != nil:
+				c.bad(construct, al.Pos(), "a position is created of which, on some path, neither line nor column comes from a source position: "+describe(lineU))
+			case lineU != nil:
+				c.bad(construct, al.Pos(), "a position is created whose line does not come from a source position (it is constant, missing, or computed from the object's own zero value): "+describe(lineU))
+			case colU != nil:
+				c.bad(construct, al.Pos(), "a position is created whose column does not come from a source position (it is constant, missing, or computed from the object's own zero value): "+describe(colU))
+			case len(comps[false].est) == 0 || len(comps[true].est) == 0:
+				// never used and never established: nothing reads it, but it is not a position either
+				c.bad(construct, al.Pos(), "a position with a constant or missing component is created")
+			case copyOf != "":
+				c.ok(construct, al.Pos(), "copy of "+copyOf+", adjusted only after the copy")
 			default:
-				c.bad(construct, al.Pos(), fmt.Sprintf("a position with a constant or missing component is created (Line=%v Col=%v)", lineF, colF))
+				c.ok(construct, al.Pos(), "Line = "+comps[false].form+"; Col = "+comps[true].form)
 			}
 		})
 	}
